@@ -282,6 +282,12 @@ def run(tier):
         except Exception as ex:   # noqa
             return "<get_type raised %s>" % type(ex).__name__
 
+    def safe_ser(f):
+        try:
+            return f.serialize()
+        except BaseException as ex:   # noqa: printing an ill-typed node may recurse without end
+            return "<serialize raised %s>" % type(ex).__name__
+
     def judge(name, argdesc, thunk, expect=None):
         """expect: None, or the verdict of an independent statement of the sorting rule ("accept" / "reject")."""
         nonlocal ncalls
@@ -299,13 +305,13 @@ def run(tier):
             except Exception:
                 return
             chk.violation({"kind": "history", "what": "%s%s raised on the first attempt but returned %s on the second"
-                           % (name, argdesc, f2.serialize()), "repro": "call FormulaManager.%s twice on arguments of sorts %s" % (name, argdesc)},
+                           % (name, argdesc, safe_ser(f2)), "repro": "call FormulaManager.%s twice on arguments of sorts %s" % (name, argdesc)},
                           key="ctor2:%s:%s" % (name, argdesc))
             return
         chk.count(("ctor", name, argdesc))
         if expect == "reject":
             chk.violation({"kind": "input", "what": "%s%s is ill-sorted by the rule (wrong sort or bit-width) but returned %s of type %s"
-                           % (name, argdesc, f.serialize(), safe_type(f)),
+                           % (name, argdesc, safe_ser(f), safe_type(f)),
                            "repro": "FormulaManager.%s on arguments of sorts/values %s" % (name, argdesc)},
                           key="ctor-accepts:%s:%s" % (name, argdesc))
             return
@@ -313,7 +319,7 @@ def run(tier):
             t = refeval.type_of(f)
         except refeval.IllTyped as ex:
             chk.violation({"kind": "input", "what": "%s%s returned the ill-typed formula %s (reported type %s): %s"
-                           % (name, argdesc, f.serialize(), safe_type(f), ex),
+                           % (name, argdesc, safe_ser(f), safe_type(f), ex),
                            "repro": "FormulaManager.%s on arguments of sorts/values %s" % (name, argdesc)},
                           key="ctor:%s:%s" % (name, argdesc))
             return
@@ -321,7 +327,7 @@ def run(tier):
             return
         if str(t) != safe_type(f):
             chk.violation({"kind": "input", "what": "%s%s: reported type %s, derived type %s" % (name, argdesc, safe_type(f), t),
-                           "formula": f.serialize()}, key="ctortype:%s:%s" % (name, argdesc))
+                           "formula": safe_ser(f)}, key="ctortype:%s:%s" % (name, argdesc))
 
     def variants(t):
         out = [sym[t][0]]
